@@ -26,3 +26,14 @@ CHECKS = {
 
 # properties not (yet) claimed, with the reason
 NOT_APPLICABLE = {}
+
+CHECKS["C18"] = dict(
+    level="model_checking",
+    engine="seqx",
+    rule="all event sequences up to the completed depth over the per-part alphabet, each run on a fresh real object under virtual time; state = distinct observation trace; transitions = events executed; oracle evaluated after every event",
+    technique="bounded-exhaustive event-sequence exploration of the implementation (explicit enumeration of all operation histories up to depth d) with invariant oracles on the real state",
+    level_text="Every history up to depth 5 (quick) / 6-8 (thorough) of posts with short/long ends, clock advances and GC runs against the real provider+store+limit bucket; the counting invariant, re-send acceptance, reported refusals and GC safety are checked after every event. Silence limits and the GET limiter are explored the same way.",
+    level_note="Bounds: one alert name, <=4 distinct alerts, ends 5s/10s/200s, advances 6s/30s; limits 1,2,3. Values outside the alphabet are not explored.",
+    assumptions=E1_ASSUME,
+    units=[dict(pkg="provider/mem", test="TestVerifC18Alerts", shards_quick=16, shards_thorough=16, budget_quick=60, budget_thorough=900)],
+)
